@@ -11,9 +11,13 @@
    8  [8; which 0|1|2; L; R; lpayloads; rpayloads]  merge_left / merge_right / merge_inner
    9  [9; T; F]                                     get_index
    10 [10; n; fk; vals]                             join
+   12 [12; cs; L; R; tsrcs; form; snk_dts; sinks0; mapk; lu; ru; backing]   Session.ordered_merge_left with typed payloads
+                                                    (tsrcs: [[dtype code; values]...]; dtype codes: 1 bool, n intn,
+                                                    100+n uintn, 200+n floatn, 300+n Sn; backing 0 memory / 1 HDF5)
+   13 [13; [case; ...]]                             a history: the cases one after the other on the same Session
    pandas.merge is instantiated with the relational join of Spec/JoinSpec.v (its assumed behaviour). *)
 From Coq Require Import ZArith List Bool.
-From EV Require Import Res Arr Val Join JoinSpec MapStream MapStreamSpec SessionMerge SessionMergeSpec.
+From EV Require Import Res Arr Val Join JoinSpec MapStream MapStreamSpec SessionMerge SessionMergeSpec SessionMergeTyped.
 Import ListNotations.
 Open Scope Z_scope.
 
@@ -63,7 +67,28 @@ Definition vomi_ret (r:omi_ret) : val :=
   | RPair l r => VL [vlist2 l; vlist2 r]
   end.
 
-Definition entry_C19 (v:val) : val :=
+Definition dtype_of (z:Z) : option dtype :=
+  if z =? 1 then Some DBool
+  else if (1 <? z) && (z <=? 64) then Some (DInt z)
+  else if (100 <? z) && (z <=? 164) then Some (DUInt (z - 100))
+  else if (200 <? z) && (z <=? 264) then Some (DFloat (z - 200))
+  else if (300 <? z) && (z <=? 364) then Some (DBytes (z - 300))
+  else None.
+Definition dtype_code (d:dtype) : Z :=
+  match d with DBool => 1 | DInt n => n | DUInt n => 100 + n | DFloat n => 200 + n | DBytes n => 300 + n end.
+Definition as_tcol (v:val) : option tcol :=
+  match v with
+  | VL [VZ c; d] => match dtype_of c, as_list d with Some dt, Some d => Some (dt, d) | _, _ => None end
+  | _ => None
+  end.
+Definition as_tcols (v:val) : option (list tcol) :=
+  match v with VL l => all_some (map as_tcol l) | _ => None end.
+Definition as_dtypes (v:val) : option (list dtype) :=
+  match as_list v with Some l => all_some (map dtype_of l) | None => None end.
+Definition vtcol (c:tcol) : val := VL [VZ (dtype_code (fst c)); vlist (snd c)].
+Definition vopt_tcols (o:option (list tcol)) : val := vopt (fun l => VL (map vtcol l)) o.
+
+Definition entry_C19_one (v:val) : val :=
   match v with
   | VL [VZ 1; VZ both; l; r; VZ n; VZ inv] =>
     match as_list l, as_list r with
@@ -139,5 +164,20 @@ Definition entry_C19 (v:val) : val :=
       VL [ of_res vlist (session_join n fk vals); vlist (join_rows INVALID_INDEX n fk vals) ]
     | _, _ => vbad
     end
+  | VL [VZ 12; VZ cs; l; r; tsrcs; VZ fm; dts; sinks0; VZ mk; VZ lu; VZ ru; VZ bk] =>
+    match as_list l, as_list r, as_tcols tsrcs, form_of fm, as_dtypes dts, as_list2 sinks0, mapk_of mk with
+    | Some L, Some R, Some srcs, Some fm, Some dts, Some sinks0, Some mk =>
+      VL [ of_res (fun o => VL [vopt_tcols (toml_ret o); vopt_tcols (toml_sinks o); vopt vlist (toml_map o)])
+                  (ordered_merge_left_t cs L R srcs fm dts sinks0 mk (as_flag lu) (as_flag ru)
+                                        (if bk =? 0 then BMem else BH5));
+           vlist2 (map (left_payload 0 L R) (map snd srcs)) ]
+    | _, _, _, _, _, _, _ => vbad
+    end
   | _ => vbad
+  end.
+
+Definition entry_C19 (v:val) : val :=
+  match v with
+  | VL [VZ 13; VL cases] => VL (history entry_C19_one cases)
+  | _ => entry_C19_one v
   end.
